@@ -81,6 +81,55 @@ structure WF (P : Params K) (items : List (Item K)) (lineW : K) : Prop where
   box : ∀ a b, a < b → legalAt P items a = true → legalAt P items b = true → lineStart P items (some a) ≤ b
   fl : flaggedAt items 0 = false
   np : ∀ b it, items[b]? = some it → it.ty = Ty.glue → b + 1 < items.length
+  /-- the exact-fit guard of `computeAdjustmentRatio` (bb6487a: `|L−W| ≤ eps·W ⇒ L := W`,
+  `|r+1| ≤ eps ⇒ r := −1`, `eps = 1e-10` in the code) does not alter the ratio of any candidate line:
+  no line lies strictly inside the guard band. Trivial for `eps = 0` (`wf_snap_of_eps0`). -/
+  snap : ∀ (prev : Option Nat) (b : Nat) (it : Item K), items[b]? = some it →
+    (∀ a, prev = some a → a < items.length) →
+    adjRatio P lineW it (pre items b).1 (pre items b).2.1 (pre items b).2.2
+      (afterSums P items prev).1 (afterSums P items prev).2.1 (afterSums P items prev).2.2 =
+    adjRatio0 P lineW it (pre items b).1 (pre items b).2.1 (pre items b).2.2
+      (afterSums P items prev).1 (afterSums P items prev).2.1 (afterSums P items prev).2.2
+
+/-- the guard-band condition of `WF` for `eps = 0` -/
+theorem wf_snap_of_eps0 (P : Params K) (items : List (Item K)) (lineW : K) (h : P.eps = 0)
+    (prev : Option Nat) (b : Nat) (it : Item K) :
+    adjRatio P lineW it (pre items b).1 (pre items b).2.1 (pre items b).2.2
+      (afterSums P items prev).1 (afterSums P items prev).2.1 (afterSums P items prev).2.2 =
+    adjRatio0 P lineW it (pre items b).1 (pre items b).2.1 (pre items b).2.2
+      (afterSums P items prev).1 (afterSums P items prev).2.1 (afterSums P items prev).2.2 :=
+  adjRatio_eps0 P lineW it _ _ _ _ _ _ h
+
+/-- executable form of the guard-band condition: the guard changes no candidate ratio -/
+def snapFreeB (P : Params K) (items : List (Item K)) (lineW : K) : Bool :=
+  (List.range items.length).all fun b =>
+    match items[b]? with
+    | none => true
+    | some it =>
+      (none :: (List.range items.length).map some).all fun prev =>
+        decide (adjRatio P lineW it (pre items b).1 (pre items b).2.1 (pre items b).2.2
+            (afterSums P items prev).1 (afterSums P items prev).2.1 (afterSums P items prev).2.2 =
+          adjRatio0 P lineW it (pre items b).1 (pre items b).2.1 (pre items b).2.2
+            (afterSums P items prev).1 (afterSums P items prev).2.1 (afterSums P items prev).2.2)
+
+theorem snap_of_snapFreeB (P : Params K) (items : List (Item K)) (lineW : K) (h : snapFreeB P items lineW = true)
+    (prev : Option Nat) (b : Nat) (it : Item K) (hit : items[b]? = some it)
+    (hp : ∀ a, prev = some a → a < items.length) :
+    adjRatio P lineW it (pre items b).1 (pre items b).2.1 (pre items b).2.2
+      (afterSums P items prev).1 (afterSums P items prev).2.1 (afterSums P items prev).2.2 =
+    adjRatio0 P lineW it (pre items b).1 (pre items b).2.1 (pre items b).2.2
+      (afterSums P items prev).1 (afterSums P items prev).2.1 (afterSums P items prev).2.2 := by
+  unfold snapFreeB at h
+  have hb : b < items.length := (List.getElem?_eq_some_iff.mp hit).1
+  have h1 := List.all_eq_true.mp h b (List.mem_range.mpr hb)
+  rw [hit] at h1
+  simp only at h1
+  have hmem : prev ∈ none :: (List.range items.length).map some := by
+    cases prev with
+    | none => exact List.mem_cons_self
+    | some a => exact List.mem_cons_of_mem _ (List.mem_map.mpr ⟨a, List.mem_range.mpr (hp a rfl), rfl⟩)
+  have h2 := List.all_eq_true.mp h1 prev hmem
+  exact of_decide_eq_true h2
 
 theorem afterSums_le (P : Params K) (items : List (Item K)) (lineW : K) (hwf : WF P items lineW)
     (prev : Option Nat) (b : Nat) (hprev : ∀ a, prev = some a → a < b ∧ legalAt P items a = true)
